@@ -1255,6 +1255,12 @@ struct server *findserver(struct realm **realm, struct tlv *username, uint8_t ac
 
     if (!id)
         return NULL;
+    if (strlen(id) != username->l) {
+        /* embedded NUL: never route (or start a dynamic lookup) on a truncated User-Name */
+        debug(DBG_INFO, "findserver: User-Name contains a NUL octet, not routing");
+        free(id);
+        return NULL;
+    }
     /* returns with lock on realm */
     *realm = id2realm(realms, id);
     if (!*realm)
